@@ -42,19 +42,19 @@ type violRec struct {
 }
 
 type Report struct {
-	opt      Options
-	files    []*HarnessFile
-	results  []*JobResult
-	viols    []*violRec
-	witness  map[string][]*sx.Case // dir -> cases
-	Wall     float64
-	inconcl  []string
-	mismatch []string
-	validated int
+	opt          Options
+	files        []*HarnessFile
+	results      []*JobResult
+	viols        []*violRec
+	witness      map[string][]*sx.Case // dir -> cases
+	Wall         float64
+	inconcl      []string
+	mismatch     []string
+	validated    int
 	witnessTotal int
-	nativeS  float64
-	loadS    float64
-	nativeErr []string
+	nativeS      float64
+	loadS        float64
+	nativeErr    []string
 }
 
 func newReport(opt Options, files []*HarnessFile) *Report {
